@@ -213,6 +213,38 @@ pub fn mem_history(seed: u64, thorough: bool) -> History {
     ops.push(Op::Build { idx: 0, o: mk(&mut rng) });
     ops.push(Op::Search { idx: 0, seed: rng.gen() });
     ops.push(Op::Commit);
+    if rng.gen_bool(0.4) {
+        // shrink, then grow far beyond the old size under a small hint: the second growth recycles the node ids
+        // freed by the shrinking build, and its over-full buckets are split in several batches
+        // (small buckets: many tree nodes, many recycled ids)
+        let dim = *[4usize, 8].choose(&mut rng).unwrap();
+        let mut mk = |rng: &mut StdRng| BuildOpts { n_trees: n_trees.or(Some(2)), split_after: None, mem: *mems.choose(rng).unwrap(), seed: rng.gen(), ..Default::default() };
+        let mut ops = Vec::new();
+        let items: Vec<(u32, Vec<u32>)> = (0..n).map(|id| (id, gen_vector(&mut rng, dim, &p, false))).collect();
+        ops.push(Op::AddMany { idx: 0, items });
+        ops.push(Op::Build { idx: 0, o: mk(&mut rng) });
+        ops.push(Op::Commit);
+        let keep = rng.gen_range(3..=14u32);
+        ops.push(Op::DelMany { idx: 0, ids: (keep..n).collect() });
+        ops.push(Op::Build { idx: 0, o: mk(&mut rng) });
+        ops.push(Op::Commit);
+        let grow = *(if thorough { &[700u32, 1300, 2600][..] } else { &[500u32, 800][..] }).choose(&mut rng).unwrap();
+        let adds: Vec<(u32, Vec<u32>)> = (5000..5000 + grow).map(|id| (id, gen_vector(&mut rng, dim, &p, false))).collect();
+        ops.push(Op::AddMany { idx: 0, items: adds });
+        let small = *[Some(0usize), Some(4096), Some(4 * 4096), Some(16 * 4096)].choose(&mut rng).unwrap();
+        ops.push(Op::Build { idx: 0, o: BuildOpts { mem: small, ..mk(&mut rng) } });
+        ops.push(Op::Search { idx: 0, seed: rng.gen() });
+        ops.push(Op::Commit);
+        return History {
+            indexes: vec![IndexDecl { idx: 0, metric, dim }],
+            ops,
+            map_size: 1 << 30,
+            label: format!("mem:{seed}:shrink-grow"),
+            faults: vec![],
+            max_polls: 2_000_000,
+            sides: false,
+        };
+    }
     for _ in 0..rng.gen_range(1..=2) {
         // large insertion mixed with deletions and overwrites
         let dels: Vec<u32> = (0..n).filter(|_| rng.gen_bool(0.12)).collect();
@@ -407,6 +439,65 @@ pub fn neighbours_history(seed: u64) -> History {
         label: format!("neighbours:{seed}:shapes{}{}", shapes[0], shapes[1]),
         faults: vec![],
         max_polls: 2_000_000,
+        sides: true,
+    }
+}
+
+/// C04, skewed data: one big cluster on one side of the origin, a few outliers on the opposite side and a few
+/// points near the boundary, in buckets large enough for the split search to run out of attempts (every
+/// candidate plane is badly balanced), then an incremental round. Margins are logged (`sides`).
+pub fn skewed_history(seed: u64, thorough: bool) -> History {
+    let mut rng = StdRng::seed_from_u64(seed);
+    let metric = *ALL_METRICS.choose(&mut rng).unwrap();
+    let dim = *[2usize, 2, 3, 5].choose(&mut rng).unwrap();
+    let sizes: &[u32] = if thorough { &[24, 60, 150, 400, 900] } else { &[24, 60, 150, 400] };
+    let n = *sizes.choose(&mut rng).unwrap();
+    let outliers = (n / rng.gen_range(20..=50)).max(1);
+    let centre = (n / 30).max(2);
+    let axis = rng.gen_range(0..dim);
+    let mut point = |kind: u8, rng: &mut StdRng| -> Vec<f32> {
+        (0..dim)
+            .map(|j| {
+                if j == axis {
+                    match kind {
+                        0 => 5.0 + rng.gen_range(-2.0f32..2.0),
+                        1 => -5.0 + rng.gen_range(-2.0f32..2.0),
+                        _ => rng.gen_range(-0.03f32..0.03),
+                    }
+                } else {
+                    rng.gen_range(-1.0f32..1.0)
+                }
+            })
+            .collect()
+    };
+    let kind_of = |id: u32| if id < n - outliers - centre { 0 } else if id < n - centre { 1 } else { 2 };
+    let items: Vec<(u32, Vec<u32>)> = (0..n).map(|id| (id, bits(&point(kind_of(id), &mut rng)))).collect();
+    let split_after = match rng.gen_range(0..4) {
+        0 => Some((n - centre / 2) as usize),
+        1 => Some((n / 2) as usize),
+        2 if n <= 60 => None,
+        _ => Some((n - outliers - 1).max(2) as usize),
+    };
+    let n_trees = *[Some(1usize), Some(1), Some(2)].choose(&mut rng).unwrap();
+    let mut ops = vec![
+        Op::AddMany { idx: 0, items },
+        Op::Build { idx: 0, o: BuildOpts { n_trees, split_after, seed: rng.gen(), ..Default::default() } },
+        Op::Search { idx: 0, seed: rng.gen() },
+        Op::Commit,
+    ];
+    let more: Vec<(u32, Vec<u32>)> = (0..(n / 8).max(2)).map(|k| (n + k, bits(&point(if k % 7 == 0 { 1 } else { 0 }, &mut rng)))).collect();
+    ops.push(Op::AddMany { idx: 0, items: more });
+    ops.push(Op::DelMany { idx: 0, ids: vec![0, n / 3, n - 1] });
+    ops.push(Op::Build { idx: 0, o: BuildOpts { n_trees, split_after, seed: rng.gen(), ..Default::default() } });
+    ops.push(Op::Search { idx: 0, seed: rng.gen() });
+    ops.push(Op::Commit);
+    History {
+        indexes: vec![IndexDecl { idx: 0, metric, dim }],
+        ops,
+        map_size: 1 << 30,
+        label: format!("skewed:{seed}:n{n}"),
+        faults: vec![],
+        max_polls: 3_000_000,
         sides: true,
     }
 }
